@@ -274,7 +274,7 @@ impl Prop for C35 {
 
     fn gen_ops(&mut self, rng: &mut Rng, tier: Tier, out: &mut Emitter) {
         let thorough = tier == Tier::Thorough;
-        let scenarios = if thorough { 400 } else { 36 };
+        let scenarios = if thorough { 400 } else { 110 };
         for sc_i in 0..scenarios {
             // chain
             let big = sc_i % 12 == 5;
